@@ -1,4 +1,3 @@
-    #[inline(never)]
     fn step(&mut self) -> bool {
         // U8 ASSUMPTION: contract-only stand-in for the real `step()` (Kani ICEs on the real
         // one).  One call = one instruction.  The outcome is chosen nondeterministically among
